@@ -578,7 +578,7 @@ theorem modelled_sites_ok :
     simp only [Bool.and_eq_true, beq_iff_eq] at hrow
     exact ⟨row, hmem, hrow.1, hrow.2⟩
   · have key : (accounted.all (fun row => !row.2.isModelled ||
-        [PanicSite.unlisted, .listRulesNil, .serviceUriNotString].any (fun s => row.1.func == s.name))) = true := by
+        [PanicSite.unlisted, .listRulesNil].any (fun s => row.1.func == s.name))) = true := by
       decide +kernel
     intro row hmem hm
     rw [List.all_eq_true] at key
